@@ -649,6 +649,26 @@ func (env *Env) expandDef(d *Def, args []SVal) SVal {
 func (env *Env) call(x *ECall) SVal {
 	u := env.u
 	d := u.D
+	if x.Fn == "" && x.Target != nil {
+		// call through a function value (declared pure): an uninterpreted function of its arguments
+		f := env.value(env.eval(x.Target))
+		sig, ok := types.Unalias(f.Typ).Underlying().(*types.Signature)
+		if !ok {
+			fail("call of a non-function %s", x.Target)
+		}
+		var args []Val
+		for _, a := range x.Args {
+			v := env.value(env.eval(a))
+			args = append(args, Val{T: v.T, Typ: v.Typ})
+		}
+		for i := range args {
+			if i < sig.Params().Len() {
+				args[i].Typ = sig.Params().At(i).Type()
+			}
+		}
+		r := env.a.applyPure(f.T, args, sig)
+		return env.sv(r.T, r.Typ)
+	}
 	evalArgs := func() []SVal {
 		var out []SVal
 		for _, a := range x.Args {
@@ -697,6 +717,18 @@ func (env *Env) call(x *ECall) SVal {
 			return b(app(">=", app("rid", app("iptr", v.T)), a0))
 		}
 		fail("fresh of %s", v.Sort)
+	case "outlen":
+		return SVal{T: env.cur.heap(outHeap, "Int"), Typ: tInt, Sort: "Int"}
+	case "runes":
+		v := env.value(env.eval(x.Args[0]))
+		return SVal{T: env.a.runeCount(v.T), Typ: tInt, Sort: "Int"}
+	case "base":
+		// base(xs): the backing array of a slice
+		xs := env.value(env.eval(x.Args[0]))
+		if xs.Sort != "Slice" {
+			fail("base of non-slice")
+		}
+		return SVal{T: app("sarr", xs.T), Sort: "Ref"}
 	case "elemAddr":
 		xs := env.value(env.eval(x.Args[0]))
 		i := env.value(env.eval(x.Args[1]))
@@ -719,6 +751,24 @@ func (env *Env) call(x *ECall) SVal {
 	case "terr":
 		i := env.value(env.eval(x.Args[0]))
 		return SVal{T: hsel(env.u, env.cur.heap(traceErr, traceSorts[traceErr]), i.T), Typ: tBool, Sort: "Bool"}
+	case "targ":
+		// targ("Name", j, i): argument j of event i, which must be an event of the traced callback Name
+		sname, ok := x.Args[0].(*EStr)
+		if !ok {
+			fail("targ(\"Name\", argIndex, eventIndex)")
+		}
+		jn, ok := x.Args[1].(*EInt)
+		if !ok {
+			fail("targ: argument index must be a literal")
+		}
+		i := env.value(env.eval(x.Args[2]))
+		key := sname.V + "_" + jn.V
+		t, ok := u.traceArgType[key]
+		if !ok {
+			fail("no traced argument %s of callback %s", jn.V, sname.V)
+		}
+		h := "T_arg_" + key
+		return env.sv(sel(env.cur.heap(h, "(Array Int "+d.SortOf(t)+")"), i.T), t)
 	case "kind":
 		// kind("Name"): the event kind of a traced callback of the function under verification
 		sname, ok := x.Args[0].(*EStr)
